@@ -290,7 +290,7 @@ type stmt =
 | SArrDivSc of var * var * expr
 | SCall of nat * target list * char list * arg list
 | SSeq of stmt * stmt
-| SIf of expr * stmt * stmt
+| SIf of nat * expr * stmt * stmt
 | SWhile of nat * expr * stmt
 | SFor of nat * var * expr * expr * stmt
 | SForRun of nat * var * z * z * stmt
